@@ -43,6 +43,7 @@ fn trait_name(chain: &str) -> &'static str {
         "async" => "ALedger",
         "objs" => "OLedger",
         "bounds" => "BLedger",
+        "futs" => "FLedger",
         _ => "ArgInterfaceV2",
     }
 }
@@ -124,7 +125,24 @@ fn exec(h: &History, revs: &[Rev]) -> HistOut {
             }
         }
     }
+    // versions whose ledger file was torn by a fault (writer killed, disk full) after it had been recorded
+    let mut torn: std::collections::BTreeSet<u32> = Default::default();
     for (i, rn) in h.runs.iter().enumerate() {
+        if let Some(rest) = rn.strip_prefix("tear:") {
+            // a storage fault, not a run: cut an existing ledger file short (keep `keep` per mille of its bytes)
+            let mut it = rest.split(':');
+            let v: u32 = it.next().and_then(|x| x.parse().ok()).unwrap_or(0);
+            let keep: u64 = it.next().and_then(|x| x.parse().ok()).unwrap_or(500);
+            let f = dir.join(format!("savefile_{}_{}.schema", tn, v));
+            if let Ok(b) = std::fs::read(&f) {
+                let n = (b.len() as u64 * keep.min(999) / 1000) as usize;
+                let _ = std::fs::write(&f, &b[..n]);
+                torn.insert(v);
+                out.probes.push("ledger_file_torn");
+                hh.str(rn);
+            }
+            continue;
+        }
         let Some(rev) = rev_by_name(revs, rn) else { continue };
         if rev.chain != h.chain {
             continue;
@@ -162,7 +180,12 @@ fn exec(h: &History, revs: &[Rev]) -> HistOut {
         if rn.starts_with("async") && !before.is_empty() {
             out.probes.push("async_interface_on_populated_directory");
         }
+        let touches_torn = (0..=rev.latest).any(|v| torn.contains(&v));
         match (&expect, &got) {
+            (Ok(()), Err(_)) if touches_torn => {
+                // the statement does not say what a run over a damaged record must do: failing is fine
+                out.probes.push("run_over_torn_record_failed");
+            }
             (Ok(()), Err(e)) => {
                 let kind = if recorded.values().all(|r| r == rn) && !recorded.is_empty() { "unchanged-interface-rejected" } else { "compatible-evolution-rejected" };
                 out.violation = Some(Violation {
@@ -226,7 +249,7 @@ fn exec(h: &History, revs: &[Rev]) -> HistOut {
 
 fn gen_history(seed: u64, revs: &[Rev], thorough: bool) -> History {
     let mut rng = Rng::new(seed);
-    let chain = *rng.pick(&["plain", "plain", "async", "objs", "objs", "argv2", "bounds"]);
+    let chain = *rng.pick(&["plain", "plain", "async", "objs", "objs", "argv2", "bounds", "futs"]);
     let members: Vec<&Rev> = revs.iter().filter(|r| r.chain == chain).collect();
     let good: Vec<&&Rev> = members.iter().filter(|r| !r.name.contains("_b_")).collect();
     let n = rng.range(1, 6);
@@ -241,6 +264,10 @@ fn gen_history(seed: u64, revs: &[Rev], thorough: bool) -> History {
             _ => members[rng.below(members.len() as u64) as usize].name.to_string(),
         };
         runs.push(pick);
+    }
+    if runs.len() >= 2 && rng.chance(1, 5) {
+        let at = rng.range(1, runs.len() as u64 - 1) as usize;
+        runs.insert(at, format!("tear:{}:{}", rng.below(3), rng.below(1000)));
     }
     let start = if chain == "argv2" && rng.chance(2, 3) { "earlier-build" } else { "empty" };
     History { chain: chain.to_string(), start: start.into(), runs, fresh_process: thorough && rng.chance(1, 8), seed }
@@ -363,7 +390,7 @@ fn fixed_or_seeded(i: u64, seed: u64, revs: &[Rev], thorough: bool) -> History {
     for name in ["argv2", "argv2_next", "argv2_b_enum_arg"] {
         fixed.push(History { chain: "argv2".into(), start: "earlier-build".into(), runs: vec![name.into(), name.into(), "argv2".into()], fresh_process: false, seed: 0 });
     }
-    for chain in ["plain", "async", "objs", "argv2", "bounds"] {
+    for chain in ["plain", "async", "objs", "argv2", "bounds", "futs"] {
         let m: Vec<&Rev> = revs.iter().filter(|r| r.chain == chain).collect();
         for a in &m {
             for b in &m {
